@@ -45,7 +45,9 @@ def heap_traces(rep, tier):
 
 def run(tier):
     rep = common.Report("C13", tier, LEVEL)
-    _common.model_checks(rep, [("ModelHeap", "ModelHeap_a.cfg"), ("ModelHeap", "ModelHeap_b.cfg")] +
+    heap_loop = [("TiccHeap", "TiccHeap_q.cfg")] if tier == "quick" else \
+        [("TiccHeap", "TiccHeap_a.cfg"), ("TiccHeap", "TiccHeap_alias.cfg")]
+    _common.model_checks(rep, [("ModelHeap", "ModelHeap_a.cfg"), ("ModelHeap", "ModelHeap_b.cfg")] + heap_loop +
                          list(_common.TICC_MODELS[tier]))
     traces = heap_traces(rep, tier)
     # (B) every phase boundary of every traced complete run
